@@ -304,3 +304,7 @@ def run(rep: Report, prog: Program, tier: str) -> None:
                         rep.ok("C01-REASM", label, sample=f"{len(me.delivered)} messages delivered, queues empty")
     if n_orders < 100:
         raise AnalysisError("C01-REASM enumerated fewer arrival orders than expected")
+
+    # ---------------- C01-POLICY (rules/C13life.py): per-channel reliability parameters at the hand-over to _send()
+    from .C13life import run_policy
+    run_policy(rep, prog, PROP, "C01-POLICY")
